@@ -26,7 +26,14 @@ def main():
             mod.run(ctx)
             if os.environ.get("VERIF_SECOND_PASS", "1") != "0":
                 ctx.run_second_pass(mod.replay, 400 if a.tier == "quick" else 3000)
+        core.disarm_watchdog()
         rc = ctx.finish()
+    except core.HangError as e:
+        core.disarm_watchdog()
+        ctx.violate("hang", ["does_not_return"], {"note": "a call made while replaying this case did not return"}, {"detail": str(e)})
+        rc = ctx.finish()
+        print("%s tier=%s (stopped: a replayed call did not return) violations=%d" % (prop, a.tier, len(ctx.violations)))
+        sys.exit(rc if rc else 1)
     except core.MachineryError as e:
         print("MACHINERY-ERROR property=%s: %s" % (prop, e))
         sys.exit(2)
